@@ -161,6 +161,20 @@ func (ps *c04PS) ksLine(op string, cfg c04KeyCfg, isNTT bool, galEl uint64, nbPi
 		IVec(evkShape(evk)), polys(ps.evkPolys(evk)), polys(ctp))
 }
 
+// c04EmitKs emits the tie line, unless the real code refused or panicked on this (valid) input: that is a
+// property violation in itself and is emitted as a failing probe.
+func c04EmitKs(c *Ctx, ps *c04PS, cfg c04KeyCfg, op string, line string, res string) {
+	if res == "panic" || res == "err" {
+		key := "C04-" + op + "-" + res
+		if cfg.lp == -1 && len(ps.P) > 0 {
+			key = "C04-levelP-minus1-with-P-panics"
+		}
+		c.Probe("ks_completes", fmt.Sprintf("%s %s %d %d %d", op, ps.hdr(), cfg.lq, cfg.lp, cfg.w), key, op+" "+res)
+		return
+	}
+	c.Emit(line, res)
+}
+
 func c04SmallVec(c *Ctx, n int, bound int64) []int64 {
 	v := make([]int64, n)
 	for i := range v {
@@ -183,7 +197,23 @@ func (ps *c04PS) ctRows(c *Ctx, lvl int, mode int) [][]uint64 {
 }
 
 // probeNoise emits a decrypt-and-compare probe.
-func c04ProbeNoise(c *Ctx, ps *c04PS, name string, args string, out *rlwe.Ciphertext, skT *rlwe.SecretKey, want []int64, bound *big.Int) {
+// c04Classify names the known root cause a failing decrypt probe falls under (so that findings can be
+// triaged): digit count too small for some q_i at this level, or RNS digits of a key without P.
+func c04Classify(ps *c04PS, cfg c04KeyCfg, lvl int, shape []int) string {
+	if cfg.lp <= 0 && cfg.w > 0 {
+		for i := 0; i <= lvl && i < len(shape); i++ {
+			if bits.Len64(ps.Q[i]-1) > cfg.w*shape[i] {
+				return "C04-digitcount-roundlog2"
+			}
+		}
+	}
+	if cfg.lp == -1 && cfg.w == 0 && lvl >= 1 {
+		return "C04-noP-rns-digits-from-row0"
+	}
+	return ""
+}
+
+func c04ProbeNoise(c *Ctx, ps *c04PS, name string, args string, out *rlwe.Ciphertext, skT *rlwe.SecretKey, want []int64, bound *big.Int, class string) {
 	lvl := out.Level()
 	half := prodBig(ps.Q[:lvl+1])
 	half.Rsh(half, 1)
@@ -199,7 +229,11 @@ func c04ProbeNoise(c *Ctx, ps *c04PS, name string, args string, out *rlwe.Cipher
 	if got.Cmp(tot) > 0 {
 		detail = fmt.Sprintf("noise=%s(bits=%d) bound=%s(bits=%d)", got.String(), got.BitLen(), tot.String(), tot.BitLen())
 	}
-	c.Probe(name, args, "C04-"+name, detail)
+	key := "C04-" + name
+	if class != "" {
+		key = class
+	}
+	c.Probe(name, args, key, detail)
 }
 
 func c04Scenario(c *Ctx, ps *c04PS, cfg c04KeyCfg, heavy bool) {
@@ -228,6 +262,17 @@ func c04Scenario(c *Ctx, ps *c04PS, cfg c04KeyCfg, heavy bool) {
 	if heavy {
 		galEls = append(galEls, ps.params.GaloisElement(-1-c.rng.Intn(3)))
 	}
+	{ // distinct elements only (the key set is a map: a second key for the same element would replace the first)
+		seen := map[uint64]bool{}
+		var d []uint64
+		for _, g := range galEls {
+			if !seen[g] && g != 1 {
+				seen[g] = true
+				d = append(d, g)
+			}
+		}
+		galEls = d
+	}
 	gks := make([]*rlwe.GaloisKey, len(galEls))
 	for i, g := range galEls {
 		gks[i] = kgen.GenGaloisKeyNew(g, sk, cfg.evkParams())
@@ -255,6 +300,7 @@ func c04Scenario(c *Ctx, ps *c04PS, cfg c04KeyCfg, heavy bool) {
 		c.Count(fmt.Sprintf("ct:lvl%d-of-%d:ntt%s:mode%d", lvl, cfg.lq, b2s(isNTT), mode))
 		bound := ps.ksNoiseBound(lvl, cfg.lp, cfg.w, evkShape(evk))
 		pargs := fmt.Sprintf("%s lvl=%d ntt=%s mode=%d", args, lvl, b2s(isNTT), mode)
+		class := c04Classify(ps, cfg, lvl, evkShape(evk))
 
 		// ---- ApplyEvaluationKey sk -> sk2
 		{
@@ -267,10 +313,10 @@ func c04Scenario(c *Ctx, ps *c04PS, cfg c04KeyCfg, heavy bool) {
 				}
 				return polys(ps.ctPolys(out))
 			})
-			c.Emit(ps.ksLine("apply", cfg, isNTT, 0, 0, evk, in), res)
+			c04EmitKs(c, ps, cfg, "apply", ps.ksLine("apply", cfg, isNTT, 0, 0, evk, in), res)
 			c.Count("ks:apply")
 			if res != "err" && res != "panic" {
-				c04ProbeNoise(c, ps, "keyswitch_decrypts", pargs, out, sk2, m, bound)
+				c04ProbeNoise(c, ps, "keyswitch_decrypts", pargs, out, sk2, m, bound, class)
 			}
 			// direct GadgetProduct / GadgetProductLazy on c1
 			if rep == 0 {
@@ -289,10 +335,10 @@ func c04Scenario(c *Ctx, ps *c04PS, cfg c04KeyCfg, heavy bool) {
 				}
 				return polys(ps.ctPolys(out))
 			})
-			c.Emit(ps.ksLine("relin", cfg, isNTT, 0, 0, &rlk.EvaluationKey, in), res)
+			c04EmitKs(c, ps, cfg, "relin", ps.ksLine("relin", cfg, isNTT, 0, 0, &rlk.EvaluationKey, in), res)
 			c.Count("ks:relin")
 			if res != "err" && res != "panic" {
-				c04ProbeNoise(c, ps, "relin_decrypts", pargs, out, sk, m, bound)
+				c04ProbeNoise(c, ps, "relin_decrypts", pargs, out, sk, m, bound, class)
 			}
 		}
 
@@ -308,10 +354,10 @@ func c04Scenario(c *Ctx, ps *c04PS, cfg c04KeyCfg, heavy bool) {
 				}
 				return polys(ps.ctPolys(out))
 			})
-			c.Emit(ps.ksLine("aut", cfg, isNTT, g, 0, &gks[gi].EvaluationKey, in), res)
+			c04EmitKs(c, ps, cfg, "aut", ps.ksLine("aut", cfg, isNTT, g, 0, &gks[gi].EvaluationKey, in), res)
 			c.Count("ks:aut")
 			if res != "err" && res != "panic" {
-				c04ProbeNoise(c, ps, "automorphism_decrypts", fmt.Sprintf("%s galEl=%d", pargs, g), out, sk, want, bound)
+				c04ProbeNoise(c, ps, "automorphism_decrypts", fmt.Sprintf("%s galEl=%d", pargs, g), out, sk, want, bound, class)
 			}
 
 			// hoisted variants (the code supports them only for BaseTwoDecomposition == 0 and with a P)
@@ -325,7 +371,7 @@ func c04Scenario(c *Ctx, ps *c04PS, cfg c04KeyCfg, heavy bool) {
 					}
 					return polys(ps.ctPolys(outH))
 				})
-				c.Emit(ps.ksLine("auth", cfg, isNTT, g, nbPi, &gks[gi].EvaluationKey, in), resH)
+				c04EmitKs(c, ps, cfg, "auth", ps.ksLine("auth", cfg, isNTT, g, nbPi, &gks[gi].EvaluationKey, in), resH)
 				c.Count("ks:auth")
 				detail := ""
 				if resH != res {
@@ -346,7 +392,7 @@ func c04Scenario(c *Ctx, ps *c04PS, cfg c04KeyCfg, heavy bool) {
 						ps.canonQP(ctQP.Value[0], lvl, cfg.lp, isNTT, false),
 						ps.canonQP(ctQP.Value[1], lvl, cfg.lp, isNTT, false)})
 				})
-				c.Emit(ps.ksLine("autl", cfg, isNTT, g, nbPi, &gks[gi].EvaluationKey, in), resL)
+				c04EmitKs(c, ps, cfg, "autl", ps.ksLine("autl", cfg, isNTT, g, nbPi, &gks[gi].EvaluationKey, in), resL)
 				c.Count("ks:autl")
 			}
 		}
@@ -362,7 +408,7 @@ func c04GadgetProductTies(c *Ctx, ps *c04PS, eval *rlwe.Evaluator, cfg c04KeyCfg
 		eval.GadgetProduct(lvl, ct.Value[1], &evk.GadgetCiphertext, out)
 		return polys(ps.ctPolys(out))
 	})
-	c.Emit(ps.ksLine("gp", cfg, isNTT, 0, 0, evk, in), res)
+	c04EmitKs(c, ps, cfg, "gp", ps.ksLine("gp", cfg, isNTT, 0, 0, evk, in), res)
 	c.Count("ks:gp")
 
 	if cfg.lp >= 0 {
@@ -377,7 +423,7 @@ func c04GadgetProductTies(c *Ctx, ps *c04PS, eval *rlwe.Evaluator, cfg c04KeyCfg
 				ps.canonQP(ctQP.Value[0], lvl, cfg.lp, isNTT, false),
 				ps.canonQP(ctQP.Value[1], lvl, cfg.lp, isNTT, false)})
 		})
-		c.Emit(ps.ksLine("gpl", cfg, isNTT, 0, 0, evk, in), resL)
+		c04EmitKs(c, ps, cfg, "gpl", ps.ksLine("gpl", cfg, isNTT, 0, 0, evk, in), resL)
 		c.Count("ks:gpl")
 	}
 }
@@ -415,7 +461,7 @@ func c04RandomCfg(c *Ctx, ps *c04PS) c04KeyCfg {
 		cfg.lq = c.rng.Intn(nQ)
 	}
 	if nP > 0 && c.rng.Intn(3) == 0 {
-		cfg.lp = c.rng.Intn(nP) // 0 .. nP-1
+		cfg.lp = c.rng.Intn(nP+1) - 1 // -1 .. nP-1 (a key without P although the parameters have one)
 	}
 	if c.rng.Intn(2) == 0 {
 		cfg.w = 1 + c.rng.Intn(30)
@@ -426,7 +472,9 @@ func c04RandomCfg(c *Ctx, ps *c04PS) c04KeyCfg {
 
 func genC04(c *Ctx) {
 	c04Dims(c)
+	c04DimsSweep(c)
 	c04Witness(c)
+	c04Malformed(c)
 
 	// structured sweep: every (#Q, #P) shape at least once, LogN 4..6
 	type shape struct{ nQ, nP int }
@@ -436,7 +484,7 @@ func genC04(c *Ctx) {
 			shapes = append(shapes, shape{nQ, nP})
 		}
 	}
-	rounds := c.Scale(1, 6)
+	rounds := c.Scale(3, 30)
 	for r := 0; r < rounds; r++ {
 		for _, sh := range shapes {
 			logN := 4
@@ -480,6 +528,152 @@ func c04Witness(c *Ctx) {
 			c04EmitDims(c, ps, 1, nP-1, w)
 			c.Count(fmt.Sprintf("witness:P%d:w%d", nP, w))
 			c04Scenario(c, ps, c04KeyCfg{lq: 1, lp: nP - 1, w: w}, false)
+		}
+	}
+}
+
+// ---------------------------------------------------------------------------------------------
+// malformed / boundary stream: calls the API must refuse (error or panic), never accept silently
+// ---------------------------------------------------------------------------------------------
+
+func c04Rejects(c *Ctx, what string, args string, f func() error) {
+	accepted := false
+	func() {
+		defer func() { _ = recover() }()
+		if err := f(); err == nil {
+			accepted = true
+		}
+	}()
+	detail := ""
+	if accepted {
+		detail = what + " accepted"
+	}
+	c.Probe("rejects_malformed", what+" "+args, "C04-accepts-"+what, detail)
+	c.Count("malformed:" + what)
+}
+
+func c04Malformed(c *Ctx) {
+	rounds := c.Scale(2, 10)
+	for r := 0; r < rounds; r++ {
+		nQ := 2 + c.rng.Intn(3)
+		nP := 1 + c.rng.Intn(2)
+		ps := c04RandomPS(c, 4, nQ, nP)
+		N := ps.N()
+		kgen := rlwe.NewKeyGenerator(ps.params)
+		sk := kgen.GenSecretKeyNew()
+		args := ps.hdr()
+		w := 1 + c.rng.Intn(30)
+		lq, lp := nQ-1, nP-1
+
+		plain := kgen.GenEvaluationKeyNew(sk, sk)
+		c04Rejects(c, "expand-uncompressed", args, func() error { return plain.Expand(ps.params, nil) })
+
+		comp := kgen.GenEvaluationKeyNew(sk, sk, rlwe.EvaluationKeyParameters{Compressed: true})
+		c04Rejects(c, "expand-buffer-degree1", args, func() error {
+			return comp.Expand(ps.params, rlwe.NewGadgetCiphertext(ps.params, 1, lq, lp, 0))
+		})
+		if lq > 0 {
+			c04Rejects(c, "expand-buffer-levelQ", args, func() error {
+				return comp.Expand(ps.params, rlwe.NewGadgetCiphertext(ps.params, 0, lq-1, lp, 0))
+			})
+		}
+		if lp > 0 {
+			c04Rejects(c, "expand-buffer-levelP", args, func() error {
+				return comp.Expand(ps.params, rlwe.NewGadgetCiphertext(ps.params, 0, lq, lp-1, 0))
+			})
+		}
+		{
+			seed := comp.Seed
+			comp.Seed = nil
+			c04Rejects(c, "expand-no-seed", args, func() error { return comp.Expand(ps.params, nil) })
+			comp.Seed = seed
+		}
+
+		rlk := kgen.GenRelinearizationKeyNew(sk)
+		g := ps.params.GaloisElement(1)
+		gk := kgen.GenGaloisKeyNew(g, sk)
+		eval := rlwe.NewEvaluator(ps.params, rlwe.NewMemEvaluationKeySet(rlk, gk))
+		evalNoKeys := rlwe.NewEvaluator(ps.params, rlwe.NewMemEvaluationKeySet(nil))
+		m := c04Msg(c, ps, lq)
+		e := c04SmallVec(c, N, 3)
+		ct1 := ps.mkCt(sk, m, e, [][][]uint64{ps.randRows(c, lq)}, true)
+		ct2 := ps.mkCt(sk, m, e, [][][]uint64{ps.randRows(c, lq), ps.randRows(c, lq)}, true)
+		out := rlwe.NewCiphertext(ps.params, 1, lq)
+
+		c04Rejects(c, "apply-degree2-input", args, func() error { return eval.ApplyEvaluationKey(ct2, plain, out) })
+		c04Rejects(c, "relin-degree1-input", args, func() error { return eval.Relinearize(ct1, out) })
+		c04Rejects(c, "relin-missing-key", args, func() error { return evalNoKeys.Relinearize(ct2, out) })
+		c04Rejects(c, "aut-missing-key", args, func() error {
+			return eval.Automorphism(ct1, ps.params.GaloisElement(2), out)
+		})
+		c04Rejects(c, "aut-degree2-input", args, func() error { return eval.Automorphism(ct2, g, out) })
+
+		// hoisted product with a power-of-two decomposition is documented as unsupported
+		gkw := kgen.GenGaloisKeyNew(g, sk, rlwe.EvaluationKeyParameters{LevelQ: &lq, LevelP: new(int), BaseTwoDecomposition: &w})
+		evalW := rlwe.NewEvaluator(ps.params, rlwe.NewMemEvaluationKeySet(nil, gkw))
+		c04Rejects(c, "hoisted-with-base2", args, func() error {
+			evalW.DecomposeNTT(lq, 0, 1, ct1.Value[1], true, evalW.BuffDecompQP)
+			ctQP := &rlwe.Element[ringqp.Poly]{}
+			ctQP.Value = []ringqp.Poly{ps.params.RingQP().AtLevel(lq, 0).NewPoly(), ps.params.RingQP().AtLevel(lq, 0).NewPoly()}
+			ctQP.MetaData = ct1.MetaData.CopyNew()
+			return evalW.GadgetProductHoistedLazy(lq, evalW.BuffDecompQP, &gkw.GadgetCiphertext, ctQP)
+		})
+
+		// identity automorphism: plain copy, bit for bit
+		{
+			o := rlwe.NewCiphertext(ps.params, 1, lq)
+			detail := ""
+			if err := eval.Automorphism(ct1, 1, o); err != nil {
+				detail = "galEl=1 refused"
+			} else if polys(ps.ctPolys(o)) != polys(ps.ctPolys(ct1)) {
+				detail = "galEl=1 is not the identity"
+			}
+			c.Probe("aut_identity", args, "C04-aut-identity", detail)
+		}
+
+		// out-of-range levels for a new key must not be accepted
+		c04Rejects(c, "evk-levelQ-too-large", args, func() error {
+			l := nQ
+			_ = kgen.GenEvaluationKeyNew(sk, sk, rlwe.EvaluationKeyParameters{LevelQ: &l})
+			return nil
+		})
+		c04Rejects(c, "evk-levelP-too-large", args, func() error {
+			l := nP
+			_ = kgen.GenEvaluationKeyNew(sk, sk, rlwe.EvaluationKeyParameters{LevelP: &l})
+			return nil
+		})
+	}
+}
+
+// c04DimsSweep: primes immediately above and below 2^k, bases dividing k and not.
+func c04DimsSweep(c *Ctx) {
+	step := c.Scale(5, 1)
+	for k := 20; k <= 55; k += step {
+		g := ring.NewNTTFriendlyPrimesGenerator(uint64(k), 32)
+		up, err1 := g.NextUpstreamPrime()
+		dn, err2 := g.NextDownstreamPrime()
+		if err1 != nil || err2 != nil {
+			continue
+		}
+		for _, q := range []uint64{up, dn} {
+			for _, nP := range []int{0, 1} {
+				var P []uint64
+				if nP == 1 {
+					_, P, _ = c04Primes(4, nil, []int{30})
+					if P[0] == q {
+						continue
+					}
+				}
+				ps, err := c04NewPS(4, []uint64{q}, P, true)
+				if err != nil {
+					continue
+				}
+				for w := 1; w <= 30; w++ {
+					if c.Thorough() || k%w == 0 || w == 7 || w == 16 {
+						c04EmitDims(c, ps, 0, nP-1, w)
+					}
+				}
+			}
 		}
 	}
 }
